@@ -283,6 +283,67 @@ def n4(run, tu):
            ca[0] == 'ct' and ca[1].replace(' ', '') in ('replace_with_len+add_space+2*add_paren',), tu.where(comb[0].ast))
 
 
+CTYPE_BITS = {'_ISupper': 256, '_ISlower': 512, '_ISalpha': 1024, '_ISdigit': 2048, '_ISxdigit': 4096, '_ISspace': 8192,
+              '_ISprint': 16384, '_ISgraph': 32768, '_ISblank': 1, '_IScntrl': 2, '_ISpunct': 4, '_ISalnum': 8}
+
+
+def _glibc_class(c):
+    ch = chr(c)
+    b = 0
+    if c < 128:
+        if ch.isupper(): b |= 256
+        if ch.islower(): b |= 512
+        if ch.isalpha(): b |= 1024 | 8
+        if ch.isdigit(): b |= 2048 | 8 | 4096
+        if ch in 'abcdefABCDEF': b |= 4096
+        if ch in ' \t\n\r\x0b\x0c': b |= 8192
+        if 32 <= c < 127: b |= 16384
+        if 33 <= c < 127: b |= 32768
+        if ch in ' \t': b |= 1
+        if c < 32 or c == 127: b |= 2
+        if 33 <= c < 127 and not ch.isalnum(): b |= 4
+    return b
+
+
+def n5(run, tu):
+    """stored names -> ctype names: "$name" (an anonymous struct/union/enum named by its typedef) becomes "name" for every
+    identifier-start character, "$1"/"$$x" keep the `struct ` prefix: decided for all 256 values of the second character"""
+    F = '_realize_name'
+    g = cfg_of(tu, F)
+    fn = tu.func(F)
+    tables = sorted({cx.render(x) for x in cx.walk(fn) if x.get('kind') == 'ArraySubscriptExpr' and '__ctype_b_loc' in cx.render(x)})
+    strip_wrong, keep_wrong = [], []
+    for c in range(1, 256):
+        rec = []
+        env = {'srcname[0]': Con(36, 8, True), 'srcname[1]': Con(c if c < 128 else c - 256, 8, True)}
+        for k, v in CTYPE_BITS.items():
+            env[k] = Con(v, 32, True)
+        for t in tables:
+            env[t] = Con(_glibc_class(c), 16, False)
+        it = absint.Interp(g, env, {'strcpy': lambda a, e: rec.append(('cpy', e)) or TOP, '__builtin_strcpy': lambda a, e: rec.append(('cpy', e)) or TOP,
+                                    'strcat': lambda a, e: rec.append(('cat', e)) or TOP, '__builtin_strcat': lambda a, e: rec.append(('cat', e)) or TOP,
+                                    '__builtin___strcpy_chk': lambda a, e: rec.append(('cpy', e)) or TOP, '__builtin___strcat_chk': lambda a, e: rec.append(('cat', e)) or TOP},
+                           const_vars=set(env)).run()
+        kinds = [k for k, _e in rec]
+        srcs = [cx.render(cx.call_args(e)[1]).replace(' ', '') for _k, e in rec]
+        if kinds == ['cpy'] and srcs == ['&srcname[1]']:
+            got = 'strip'
+        elif kinds == ['cpy', 'cat'] and srcs == ['prefix', 'srcname']:
+            got = 'prefix'
+        else:
+            raise AnalysisError('%s: second character %r not decided by constant propagation (%s)' % (F, chr(c), list(zip(kinds, srcs))))
+        ch = chr(c)
+        if (ch.isalpha() and c < 128) or ch == '_':
+            if got != 'strip':
+                strip_wrong.append(ch)
+        elif ch == '$' or ch in '0123456789':
+            if got != 'prefix':
+                keep_wrong.append(ch)
+    run.ob('N5/typedef-named-anonymous-types-lose-the-dollar', F, '"$name" -> "name" for every identifier-start character', not strip_wrong, tu.where(fn),
+           'kept as "struct $%s..." (a name no C compiler accepts) for: %s' % (strip_wrong[0] if strip_wrong else '', ''.join(strip_wrong)))
+    run.ob('N5/numbered-anonymous-types-keep-their-prefix', F, '"$1", "$$x" -> "struct $1", "struct $$x"', not keep_wrong, tu.where(fn), 'stripped for: %s' % ''.join(keep_wrong))
+
+
 def check(run):
     run.technique = ('name algebra: abstract evaluation (constant propagation with the buffers at symbolic base addresses) of the three splice routines, '
                      'clang-AST rules on the decoration each type constructor chooses, and a three-way decision-table cross-check of the getctype '
@@ -292,7 +353,8 @@ def check(run):
     n2(run, tu)
     n3(run, tu)
     n4(run, tu)
+    n5(run, tu)
     run.assume('that a correctly spliced declaration re-parses to the intended type is the declarator rule of C plus the parsers (C07) and the canonical-ctype cache (C27); '
                'decided here: the splice, the insertion point and the decoration; not decided: argument lists of function names, qualifiers (qualify()), sizes of the declared objects')
-    for rule, k in (('N1', 30), ('N2', 5), ('N3', 4), ('N4/three-implementations-decorate-alike', 50), ('N4', 54)):
+    for rule, k in (('N1', 30), ('N2', 5), ('N3', 4), ('N4/three-implementations-decorate-alike', 50), ('N4', 54), ('N5', 2)):
         run.min_instances(rule, k)
